@@ -64,6 +64,10 @@ def finding_matches(f, pid, obligation=None, witness_key=None):
     return False
 
 
+AUXILIARY_KINDS = {'inv', 'loop_established', 'loop_preserved', 'call_pre', 'no_exception', 'step', 'cut', 'frame', 'init_fields',
+                   'field_type', 'callshape'}
+
+
 class Result:
     def __init__(self):
         self.violations = []     # dicts: obligation/bounded name, replay path, confirmed, note
@@ -153,9 +157,10 @@ def run_property(pid, tier, seed):
         if exp:
             # vacuity: NO path to this kind of exit is feasible under the assumed hypotheses (a single refuted path is an
             # infeasible path - e.g. an exception handler that a precondition rules out - and is only counted)
-            if all(s == 'unsat' for s in sts):
+            if all(s == 'unsat' for s in sts) and '/canary_exc/' not in oid:
                 res.errors.append(f"vacuity: hypotheses of {oid} are contradictory on every path (canary refuted nothing)")
             elif any(s == 'unsat' for s in sts):
+                # (an exceptional exit the contract allows but no path can take is not vacuity: the code simply never raises it)
                 infeasible_paths[oid] = sum(1 for s in sts if s == 'unsat')
             continue
         n_obl += 1
@@ -220,6 +225,7 @@ def run_property(pid, tier, seed):
         except Exception as ex:   # noqa
             res.errors.append(f"bounded stand-in crashed: {ex}\n{traceback.format_exc()}")
     # ---- 4. counterexamples -> replay on the real code ----------------------------------------------------
+    confirm_budget = [240.0]
     for oid, ob, r in failed + candidates:
         is_candidate = r['status'] == 'sat?'
         witness = None
@@ -253,6 +259,22 @@ def run_property(pid, tier, seed):
             witness = {'corroborated_by_bounded_failure': w0.get('key'), 'summary': w0.get('summary'), 'replay': p0}
             observed = {'confirmed': True, 'what': w0.get('summary')}
             confirmed = True
+        if not confirmed and confirm_budget[0] > 0 and (ob.meta.get('kind') not in AUXILIARY_KINDS or ob.meta.get('kind') == 'no_exception'):
+            # (behavioural clauses only: a representation invariant refuted on a reachable state shows that the REPRESENTATION changed)
+            # replay from a REACHABLE state: the obligation is re-generated with the pre-state pinned to concrete states built
+            # through the library API, the solver picks the failing numeric arguments / draws, the real method is run on them
+            # and the native execution must refute the clause (pyvc.confirm)
+            t1 = time.time()
+            try:
+                from . import confirm as _confirm
+                item = next((it for it in P.CLOSURE if it['fn'] == ob.meta.get('function')), None)
+                hit = _confirm.confirm(ob.meta.get('function'), oid, dict(item.get('opts', {})) if item else {}, seed,
+                                       budget_s=min(60, confirm_budget[0]))
+            except Exception as ex:   # noqa
+                hit = None
+            confirm_budget[0] -= time.time() - t1
+            if hit is not None:
+                witness, observed, confirmed = {'reachable_replay': hit}, {'confirmed': True, 'what': hit['native_outcome']}, True
         path = os.path.join(OUT, 'replays', f"{pid}-{slug(oid)}.json")
         rec = {'property': pid, 'obligation': oid, 'function': ob.meta.get('function'),
                'kind': ob.meta.get('kind'), 'clause': ob.meta.get('clause'), 'line': ob.meta.get('line'),
@@ -268,6 +290,12 @@ def run_property(pid, tier, seed):
         if is_candidate and not confirmed:
             res.undecided.append(f"{oid}: solver answered unknown; a model of the quantifier-free part exists but was not "
                                  f"confirmed on the real code (see {path})")
+        elif ob.meta.get('kind') in AUXILIARY_KINDS and not confirmed:
+            # proof structure (representation / loop invariants, callee preconditions, absence of exceptions, proof steps, frames):
+            # losing one of these without any failing input on the real code means the PROOF is lost, not that the property is
+            # violated - harmless refactorings do this routinely (DESIGN A4)
+            res.undecided.append(f"{oid}: proof obligation of kind '{ob.meta.get('kind')}' no longer holds; no failing input on the real "
+                                 f"code was found (bounded stand-ins, replay from reachable states) - proof lost, not a violation (see {path})")
         elif stricter and not confirmed:
             # a refinement clause demands more than the statement (e.g. "operation for operation the reference recurrence"):
             # losing it without any failing input is not a violation of the property - the verdict is undecided
